@@ -41,6 +41,16 @@ class Lin:
     def is_const(self):
         return not self.terms
 
+    def subst_consts(self, env):
+        """replace atoms by constants (only when the atom occurs as a plain variable term)"""
+        terms = dict(self.terms)
+        const = self.const
+        for k in list(terms):
+            if k in env:
+                const = (const + terms[k] * env[k]) % P
+                del terms[k]
+        return Lin(terms, const)
+
     def key(self):
         return (tuple(sorted((str(k), v % P) for k, v in self.terms.items())), self.const)
 
